@@ -12,3 +12,5 @@ import Xandikos.Theorems.C06
 #print axioms Xandikos.Theorems.C06.outcome_independent_of_cache
 #print axioms Xandikos.Theorems.C06.coherent_by_extension
 #print axioms Xandikos.Store.scan_exact
+#print axioms Xandikos.Theorems.C06.code_maps_uid_conflict
+#print axioms Xandikos.Theorems.C06.code_is_model_exception_tables
